@@ -26,15 +26,18 @@ results = []
 for d in dirs:
     m = re.search(r"(C\d\d)", d)
     prop = m.group(1)
-    for diff in sorted(glob.glob(os.path.join(d, "*.diff"))):
+    for diff in sorted(glob.glob(os.path.join(d, "m?.diff"))):
         name = os.path.basename(diff)[:-5]
+        orig_diff = diff
+        if os.path.exists(diff[:-5] + ".rebased.diff"):
+            diff = diff[:-5] + ".rebased.diff"     # same change, re-made against the current code after a fix: commit moved the context
         sh("git -C %s checkout -- ." % WT)
         r = sh("git -C %s apply %s" % (WT, diff))
         if r.returncode != 0:
             results.append({"prop": prop, "mutant": diff, "status": "patch-does-not-apply"})
             print(prop, name, "patch-does-not-apply"); continue
         t0 = time.time()
-        demo = diff[:-5] + "_demo.py"
+        demo = orig_diff[:-5] + "_demo.py"
         if not os.path.exists(demo):
             demo = os.path.join(d, "demo.py")
         demo_rc = None
@@ -42,7 +45,7 @@ for d in dirs:
             demo_rc = sh("/venv/bin/python %s" % demo, env=dict(os.environ, PYTHONPATH=WT), timeout=600).returncode
         r = sh("%s/check %s --tier %s" % (VE, prop, tier), env=env, timeout=3600)
         lines = [l for l in r.stdout.split("\n") if l.startswith(("VIOLATION", "KNOWN-FINDING", "HARNESS-ERROR", "OK "))]
-        results.append({"prop": prop, "mutant": diff, "rc": r.returncode, "lines": lines, "demo_rc": demo_rc,
+        results.append({"prop": prop, "mutant": orig_diff, "rc": r.returncode, "lines": lines, "demo_rc": demo_rc,
                         "wall": round(time.time() - t0, 1)})
         print(prop, name, "rc=%s" % r.returncode, "demo_rc=%s" % demo_rc, "%.0fs" % (time.time() - t0), "|", " ; ".join(lines)[:300], flush=True)
         sh("git -C %s checkout -- ." % WT)
